@@ -9,6 +9,7 @@ Own code on purpose (no sympy): small, deterministic, and clearly a canonicalise
 """
 from __future__ import annotations
 
+import functools
 from fractions import Fraction
 from typing import Dict, Iterable, List, Optional, Tuple, Union
 
@@ -232,6 +233,7 @@ def _raw_mul(a: Poly, b: Poly) -> Poly:
     return Poly(t)
 
 
+@functools.lru_cache(maxsize=1 << 20)
 def _lexkey(m: Mono):
     """Graded lexicographic monomial order (a valid admissible order): the *smallest* key is the leading monomial."""
     exp = []
